@@ -2,7 +2,9 @@
 
 `Generated/Blob.lean : program` lists, in source order, the effects of
   Connector._set_prime  ->  db.util.encode  (mkstemp, dump, digest)
-  Worker.do, branch Func.set  ->  db.util.move (probe, place onExists onFresh), record, reply
+  Worker.do, branch Func.set  ->  db.util.move (probe, then every file-system statement with the branch of
+                                  `if exists` it belongs to: unlink / mkdirs / move <incoming|store> / replace),
+                                  record, reply
   Interface._update / _update_msv  ->  flag
 in the vocabulary of `Model/Blob.lean`.  Statements without an effect on the staged file, the store,
 the prime table or the reply are skipped; an effectful call this reader does not know is an error."""
@@ -148,90 +150,149 @@ def read_encode(fn):
 
 
 # ------------------------------------------------------------------ move
-def act_of(body, fn_var):
-    acts = []
-    for s in stmts(body):
+MKDIRS = {('os', 'makedirs'), ('os', 'mkdir')}
+
+
+class MoveReader:
+    """statements of `move(fn, result)` -> ['probe', ('act', branch, lean act), ...] in source order.
+    Paths are classified by data flow: built from `result` = the digest name inside the store; built from a
+    constant sub-directory of data_dbs (and possibly the staged file's basename) = inside `incoming`."""
+
+    def __init__(self, fn):
+        params = [a.arg for a in fn.args.args]
+        if len(params) != 2:
+            raise Untranslatable('move: expected (fn, result)')
+        self.fn_var, self.res_var = params
+        self.params = params
+        self.store = {self.res_var}   # names holding the path of the digest name in the store
+        self.incoming = set()         # names holding <data_dbs>/<constant>[/<basename of fn>]
+        self.ex_var = None
+        self.instrs = []
+        self.neg = None
+        self.read(fn.body)
+        kinds = [i if isinstance(i, str) else i[0] for i in self.instrs]
+        if kinds.count('probe') != 1 or 'act' not in kinds or self.neg is None:
+            raise Untranslatable(f'move: unexpected shape {kinds}')
+
+    def names(self, node):
+        return {x.id for x in ast.walk(node) if isinstance(x, ast.Name)}
+
+    def classify(self, node):
+        ns = self.names(node)
+        if ns & self.store:
+            return '.store'
+        if ns & self.incoming:
+            return '.incoming'
+        return None
+
+    def track(self, s):
+        """data flow of path variables"""
+        if not (isinstance(s, ast.Assign) and len(s.targets) == 1 and isinstance(s.targets[0], ast.Name)):
+            return
+        t, v = s.targets[0].id, s.value
+        if t in self.params:
+            raise Untranslatable(f'move: parameter {t} is reassigned')
+        ns = self.names(v)
+        if ns & self.store and self.fn_var not in ns:
+            self.store.add(t)
+        elif ns & self.incoming:
+            self.incoming.add(t)
+        elif isinstance(v, ast.Call) and qual(v) == ('os.path', 'join') and len(v.args) >= 2 \
+                and dotted(v.args[0]) == 'dawgie.context.data_dbs' \
+                and all(isinstance(x, ast.Constant) and isinstance(x.value, str) for x in v.args[1:]):
+            self.incoming.add(t)
+
+    def effect(self, c):
+        q = check_known(c, 'move', UNLINK | RENAME | MKDIRS | EXISTS)
+        if q in UNLINK:
+            if not (c.args and isinstance(c.args[0], ast.Name) and c.args[0].id == self.fn_var):
+                raise Untranslatable('move: unlink of something other than the staged file')
+            return '.unlink'
+        if q in MKDIRS:
+            if not (c.args and self.classify(c.args[0]) == '.incoming'):
+                raise Untranslatable('move: makedirs of something other than the incoming directory of the store')
+            return '.mkdirs'
+        if q in RENAME:
+            if len(c.args) < 2:
+                raise Untranslatable('move: rename without two paths')
+            src, dst = c.args[0], self.classify(c.args[1])
+            if isinstance(src, ast.Name) and src.id == self.fn_var:
+                if dst is None:
+                    raise Untranslatable('move: the staged file is moved to a place this reader cannot classify')
+                # shutil.move / os.rename / os.replace of the staged file: a move that may cross file systems
+                return f'(.move {dst})'
+            if self.classify(src) == '.incoming' and dst == '.store' and q != ('shutil', 'move'):
+                return '.replace'
+            raise Untranslatable('move: rename between places this reader cannot classify')
+        return None
+
+    def effects(self, s):
+        out = []
         for node in own_nodes(s):
             for c in calls_in_order(node):
-                q = check_known(c, 'move', UNLINK | RENAME)
-                if q in UNLINK or q in RENAME:
-                    if not (c.args and isinstance(c.args[0], ast.Name) and c.args[0].id == fn_var):
-                        raise Untranslatable('move: unlink/rename of something other than the staged file')
-                    acts.append('.unlink' if q in UNLINK else '.rename')
-        if isinstance(s, (ast.If, ast.For, ast.While)):
-            raise Untranslatable('move: nested control flow in a branch')
-    if len(acts) > 1:
-        raise Untranslatable('move: more than one file-system effect in a branch')
-    return acts[0] if acts else '.keep'
+                a = self.effect(c)
+                if a:
+                    out.append(a)
+        return out
+
+    def branch(self, body, b):
+        for s in stmts(body):
+            if isinstance(s, (ast.If, ast.For, ast.While)):
+                raise Untranslatable('move: nested control flow in a branch')
+            self.track(s)
+            for a in self.effects(s):
+                self.instrs.append(('act', b, a))
+
+    def probe(self, call):
+        if not (call.args and self.classify(call.args[0]) == '.store'):
+            raise Untranslatable('move: the existence test is not about the path of the digest name in the store')
+        self.instrs.append('probe')
+
+    def read(self, body):
+        for s in body:
+            self.track(s)
+            if isinstance(s, ast.Assign) and len(s.targets) == 1 and isinstance(s.targets[0], ast.Name) \
+                    and isinstance(s.value, ast.Call) and qual(s.value) in EXISTS:
+                self.probe(s.value)
+                self.ex_var = s.targets[0].id
+                continue
+            if isinstance(s, ast.If):
+                t, swap = s.test, False
+                if isinstance(t, ast.UnaryOp) and isinstance(t.op, ast.Not):
+                    t, swap = t.operand, True
+                if isinstance(t, ast.Call) and qual(t) in EXISTS and self.ex_var is None:
+                    self.probe(t)
+                    self.ex_var = '<inline>'
+                elif not (isinstance(t, ast.Name) and t.id == self.ex_var):
+                    raise Untranslatable('move: branch condition is not the result of os.path.exists')
+                self.branch(s.body, not swap)
+                self.branch(s.orelse, swap)
+                continue
+            if isinstance(s, ast.Return):
+                v = s.value
+                if not (isinstance(v, ast.Tuple) and len(v.elts) == 2):
+                    raise Untranslatable('move: does not return (name, exists)')
+                if not (isinstance(v.elts[0], ast.Name) and v.elts[0].id == self.res_var):
+                    raise Untranslatable('move: first component returned is not the digest name it was given')
+                e = v.elts[1]
+                if isinstance(e, ast.Name) and e.id == self.ex_var:
+                    self.neg = False
+                elif isinstance(e, ast.UnaryOp) and isinstance(e.op, ast.Not) and isinstance(e.operand, ast.Name) \
+                        and e.operand.id == self.ex_var:
+                    self.neg = True
+                else:
+                    raise Untranslatable('move: second component returned is not the exists flag')
+                continue
+            if isinstance(s, (ast.For, ast.While, ast.Try, ast.With)):
+                raise Untranslatable('move: control flow outside the translated subset')
+            for a in self.effects(s):  # an effect outside the branches
+                self.instrs.append(('act', None, a))
 
 
 def read_move(fn):
-    """-> (instrs, reply_negated_by_move) ; instrs = ['probe', ('place', onExists, onFresh)]"""
-    params = [a.arg for a in fn.args.args]
-    if len(params) != 2:
-        raise Untranslatable('move: expected (fn, result)')
-    fn_var, res_var = params
-    ex_var, instrs, placed, neg = None, [], False, None
-    derived = {res_var}  # names whose value is built from the digest name (the path inside the store)
-
-    def probes_store(call):
-        return bool(call.args) and any(isinstance(x, ast.Name) and x.id in derived for x in ast.walk(call.args[0]))
-
-    for s in fn.body:
-        for t in (s.targets if isinstance(s, ast.Assign) else []):
-            for x in ast.walk(t):
-                if isinstance(x, ast.Name) and x.id in params:
-                    raise Untranslatable(f'move: parameter {x.id} is reassigned')
-        if isinstance(s, ast.Assign) and len(s.targets) == 1 and isinstance(s.targets[0], ast.Name) \
-                and any(isinstance(x, ast.Name) and x.id in derived for x in ast.walk(s.value)) \
-                and not any(isinstance(x, ast.Name) and x.id == fn_var for x in ast.walk(s.value)):
-            derived.add(s.targets[0].id)
-        if isinstance(s, ast.Assign) and len(s.targets) == 1 and isinstance(s.targets[0], ast.Name) \
-                and isinstance(s.value, ast.Call) and qual(s.value) in EXISTS:
-            if not probes_store(s.value):
-                raise Untranslatable('move: the existence test is not about the path of the digest name in the store')
-            ex_var = s.targets[0].id
-            instrs.append('probe')
-            continue
-        if isinstance(s, ast.If):
-            t, swap = s.test, False
-            if isinstance(t, ast.UnaryOp) and isinstance(t.op, ast.Not):
-                t, swap = t.operand, True
-            if isinstance(t, ast.Call) and qual(t) in EXISTS and ex_var is None:
-                if not probes_store(t):
-                    raise Untranslatable('move: the existence test is not about the path of the digest name in the store')
-                instrs.append('probe')
-            elif not (isinstance(t, ast.Name) and t.id == ex_var):
-                raise Untranslatable('move: branch condition is not the result of os.path.exists')
-            a, b = act_of(s.body, fn_var), act_of(s.orelse, fn_var)
-            if swap:
-                a, b = b, a
-            instrs.append(('place', a, b))
-            placed = True
-            continue
-        if isinstance(s, ast.Return):
-            v = s.value
-            if not (isinstance(v, ast.Tuple) and len(v.elts) == 2):
-                raise Untranslatable('move: does not return (name, exists)')
-            if not (isinstance(v.elts[0], ast.Name) and v.elts[0].id == res_var):
-                raise Untranslatable('move: first component returned is not the digest name it was given')
-            e = v.elts[1]
-            if isinstance(e, ast.Name) and e.id == ex_var:
-                neg = False
-            elif isinstance(e, ast.UnaryOp) and isinstance(e.op, ast.Not) and isinstance(e.operand, ast.Name) \
-                    and e.operand.id == ex_var:
-                neg = True
-            else:
-                raise Untranslatable('move: second component returned is not the exists flag')
-            continue
-        # anything else: an effect outside a branch, or a harmless statement
-        a = act_of([s], fn_var)
-        if a != '.keep':
-            instrs.append(('place', a, a))
-            placed = True
-    if 'probe' not in instrs or not placed or neg is None:
-        raise Untranslatable(f'move: unexpected shape {instrs}')
-    return instrs, neg
+    """-> (instrs, reply_negated_by_move)"""
+    r = MoveReader(fn)
+    return r.instrs, r.neg
 
 
 # ------------------------------------------------------------------ Worker.do, branch Func.set
@@ -289,7 +350,7 @@ def read_set(do, move_instrs, move_neg):
             if q and q[1] in ('unlink', 'remove', 'rename', 'replace', 'move'):
                 raise Untranslatable(f'Worker.do(set): unexpected effectful call {q[1]}')
     kinds = [i if isinstance(i, str) else i[0] for i in instrs]
-    if kinds.count('record') != 1 or kinds.count('reply') != 1 or kinds.count('place') < 1:
+    if kinds.count('record') != 1 or kinds.count('reply') != 1 or kinds.count('act') < 1:
         raise Untranslatable(f'Worker.do(set): unexpected effect sequence {kinds}')
     return instrs
 
@@ -335,8 +396,9 @@ def read_flag(fn, name):
 def lean_instr(i):
     if isinstance(i, str):
         return '.' + i
-    if i[0] == 'place':
-        return f'.place {i[1]} {i[2]}'
+    if i[0] == 'act':
+        g = 'none' if i[1] is None else ('(some true)' if i[1] else '(some false)')
+        return f'.act {g} {i[2]}'
     if i[0] == 'record':
         return f'.record {i[1]}'
     return f'.{i[0]} {"true" if i[1] else "false"}'
@@ -357,7 +419,7 @@ def gen_blob(repo):
         'import DawgieVerif.Model.Blob\n'
         'namespace DawgieVerif.Generated.Blob\n'
         'open DawgieVerif.Blob\n'
-        '/-- micro-steps of one prime update in source order:\n'
+        '/-- statements of one prime update in source order:\n'
         '    Connector._set_prime/encode ++ Worker.do(Func.set)/move ++ Interface._update -/\n'
         'def program : List Instr :=\n  [' + ', '.join(lean_instr(i) for i in prog) + ']\n'
         'def digestTools : List String := [' + ', '.join(f'"{t}"' for t in tools) + ']\n'
